@@ -45,6 +45,7 @@ type Workload struct {
 	MaxDataFile  uint64          `json:"max_data_file"`
 	Compress     bool            `json:"compress"`
 	Purge        bool            `json:"purge"` // utxo.UTXO_PURGE_UNSPENDABLE, as a freshly configured client runs
+	SkipSave     uint32          `json:"skip_save_blocks"` // utxo.UTXO_SKIP_SAVE_BLOCKS (the client's UTXOSave.BlocksToHold, default 6)
 }
 
 type State struct {
@@ -137,6 +138,7 @@ func worker(wlFile, dir, journal string) {
 		os.Exit(9)
 	}
 	chainsim.SetPurge(w.Purge)
+	utxo.UTXO_SKIP_SAVE_BLOCKS = w.SkipSave
 	utxo.UTXO_WRITING_TIME_TARGET = time.Duration(w.SaveTargetMs) * time.Millisecond
 	n := chainsim.OpenNode(dir, w.Params, chainsim.NodeOpts{BDB: bdbOpts(&w)})
 	jf, _ := os.OpenFile(journal, os.O_CREATE|os.O_WRONLY|os.O_APPEND, 0o644)
@@ -170,6 +172,7 @@ func reopen(wlFile, dir, mode, out string) {
 	b, _ := os.ReadFile(wlFile)
 	json.Unmarshal(b, &w)
 	chainsim.SetPurge(w.Purge)
+	utxo.UTXO_SKIP_SAVE_BLOCKS = w.SkipSave
 	res := &ReopenResult{}
 	write := func() {
 		jb, _ := json.Marshal(res)
@@ -207,6 +210,7 @@ func reopenDump(wlFile, dir, mode, out string) {
 	b, _ := os.ReadFile(wlFile)
 	json.Unmarshal(b, &w)
 	chainsim.SetPurge(w.Purge)
+	utxo.UTXO_SKIP_SAVE_BLOCKS = w.SkipSave
 	res := &ReopenResult{}
 	defer func() {
 		if r := recover(); r != nil {
@@ -283,7 +287,7 @@ func makePlan(seed int64, variant int) *plan {
 	ref := refchain.NewChain(p, func() int64 { return time.Now().Unix() })
 	g := chainsim.NewGen(r, p, ref)
 	pl := &plan{ref: ref}
-	pl.w = Workload{Seed: seed, Params: p, SaveTargetMs: []int{0, 300, 0, 150}[variant%4], Compress: variant%2 == 1, Purge: variant%3 == 1}
+	pl.w = Workload{Seed: seed, Params: p, SaveTargetMs: []int{0, 300, 0, 150}[variant%4], Compress: variant%2 == 1, Purge: variant%3 == 1, SkipSave: []uint32{0, 0, 6, 0, 2}[variant%5]}
 	if variant%4 == 3 {
 		pl.w.MaxDataFile = 40000 // data-file roll-over every few blocks
 	}
